@@ -14,6 +14,15 @@ Correspondence streams (model = lean/Drv/C07.lean over Model.Apci):
                   adec  PDU -> APDU.decode -> typed class      (fields + payload)
   hdr-loose   : headers outside WFHeader (None flags, missing / out-of-range fields,
                 codes that do not fit, unknown types): same bytes or same error kind
+  hdr-stale   : headers that carry, besides their own fields, every combination of flags (and
+                numeric fields) of OTHER PDU types — an object with a past
+  hdr-reuse   : decode a frame of type A into an APDU (or APCI.update() a fresh one from it), give it
+                the type and own fields of B, encode: model = aenc of the merged attribute set
+  history     : sequences inside ONE process (8/16 workers, several sequences each, and once more in
+                the main process at the very end): decode octets -> APDU -> typed object; mutate
+                decoded objects' pduData the way the segmentation code does (put_data of another
+                object's pduData, put, put_short, +=, extend); decode further frames; re-encode.
+                Each decode / encode step is compared with the (stateless) model reply for its octets
   oct-<n>     : ALL octet strings of length <= 2 (quick) / <= 3 (thorough) through dec and adec
   oct-random  : random longer strings, first octet biased to the eight types
   oct-trunc   : every strict prefix of valid frames, single-octet substitutions
@@ -27,6 +36,12 @@ Implementation-side oracle (independent of the model; only this produces failing
     == input; what decodes re-encodes and decodes to the same header
   * tables equal the standard's at every code point; encoders round down, never up, pick
     the best code, are monotone; too-small capabilities refused
+  * only the fields of a header's OWN type reach the wire (proj): with stale fields of another
+    type set, the octets are the clause-20.1 layout of the own fields, the first octet has no bit
+    the type does not define, the peer decodes exactly the own fields, encode(decode(octets)) == octets
+  * history: every result depends only on ITS octets / ITS object (reference decoder ref_decode,
+    expected_layout); the pduData of two decoded objects are never the same bytearray; mutating
+    one object never changes another
   * apdu_types registers the eight classes under their own pduType; replies built with
     `context=request` carry the request's invoke ID / service choice
 Exception kinds: DecodingError -> decoding (core.exc_kind).  Encoder-side Python errors
@@ -46,7 +61,9 @@ RULE = ("full cross product per PDU type of flag bits x max-segments codes 0..7 
         "0..15 x octet fields in {0,1,127,128,255} (thorough: 332 800 confirmed-request headers, 1 300 "
         "complex acks, 500 segment acks, ...; quick thins only the (inv,svc,seq,win) octets of segmented "
         "confirmed requests to a strength-3 orthogonal array: 76 800 headers), each through "
-        "enc/aenc/dec/adec with a payload; loose headers; "
+        "enc/aenc/dec/adec with a payload; loose headers; headers with every combination of stale flags "
+        "of other PDU types, reused / APCI.update()d header objects; in-process histories (decode, mutate "
+        "decoded objects' pduData, decode, re-encode) in every worker and the main process; "
         "all octet strings of length <=2 (quick) / <=3 (thorough) exhaustively, random longer ones, "
         "all strict prefixes and single-octet substitutions of valid frames; capabilities None, "
         "0..2000 and large through the table encoders, codes 0..20 through the decoders. "
@@ -178,6 +195,27 @@ def impl(case):
             return {"r": "ok", "hex": bytes(pdu.pduData).hex()}
         except Exception as e:
             return {"r": "err", "k": enc_exc_kind(e)}
+    if op == "reuse":
+        # a header object that has a past: it received `first` (or was filled from the object
+        # that did, by APCI.update), is then given the type and the OWN fields of `h`, and sent
+        try:
+            h = case["h"]
+            src = A.APDU()
+            src.decode(PDU(bytes.fromhex(case["first"])))
+            if case["via"] == "update":
+                obj = A.APDU()
+                obj.update(src)
+            else:
+                obj = src
+            obj.apduType = h["t"]
+            for k in case["set"]:
+                setattr(obj, ATTR[k], h[k])
+            obj.pduData = bytearray(bytes.fromhex(case["data"]))
+            pdu = PDU()
+            obj.encode(pdu)
+            return {"r": "ok", "hex": bytes(pdu.pduData).hex()}
+        except Exception as e:
+            return {"r": "err", "k": enc_exc_kind(e)}
     if op == "dec":
         try:
             raw = bytes.fromhex(case["hex"])
@@ -282,23 +320,111 @@ def need(first):
     return {0: 6 if seg else 4, 1: 2, 2: 3, 3: 5 if seg else 3, 4: 4, 5: 3, 6: 3, 7: 3}.get(t)
 
 
+FLAGS = ("seg", "mor", "sa", "srv", "nak")
+# the fields clause 20.1 gives each PDU type (seq/win of types 0 and 3 only when segmented)
+OWN = {0: ["seg", "mor", "sa", "msegs", "mresp", "inv", "svc"], 1: ["svc"], 2: ["inv", "svc"],
+       3: ["seg", "mor", "inv", "svc"], 4: ["nak", "srv", "inv", "seq", "win"], 5: ["inv", "svc"],
+       6: ["inv", "rsn"], 7: ["srv", "inv", "rsn"]}
+# bits of the first octet a type may set besides its type nibble
+FLAGMASK = {0: 0x0E, 1: 0, 2: 0, 3: 0x0C, 4: 0x03, 5: 0, 6: 0, 7: 0x01}
+
+
+def ref_decode(raw):
+    """independent reference decoder (clause 20.1): (header, payload) or None if refused"""
+    if not raw:
+        return None
+    n = need(raw[0])
+    if n is None or len(raw) < n:
+        return None
+    f, t = raw[0], raw[0] >> 4
+    bit = lambda m: bool(f & m)
+    if t == 0:
+        h = H(0, seg=bit(8), mor=bit(4), sa=bit(2), msegs=(raw[1] >> 4) & 7, mresp=raw[1] & 15,
+              inv=raw[2], svc=raw[n - 1])
+        if h["seg"]:
+            h["seq"], h["win"] = raw[3], raw[4]
+    elif t == 1:
+        h = H(1, svc=raw[1])
+    elif t in (2, 5):
+        h = H(t, inv=raw[1], svc=raw[2])
+    elif t == 3:
+        h = H(3, seg=bit(8), mor=bit(4), inv=raw[1], svc=raw[n - 1])
+        if h["seg"]:
+            h["seq"], h["win"] = raw[2], raw[3]
+    elif t == 4:
+        h = H(4, nak=bit(2), srv=bit(1), inv=raw[1], seq=raw[2], win=raw[3])
+    elif t == 6:
+        h = H(6, inv=raw[1], rsn=raw[2])
+    else:
+        h = H(7, srv=bit(1), inv=raw[1], rsn=raw[2])
+    return h, bytes(raw[n:])
+
+
+def proj(h):
+    """the header a peer must see: only the fields of h's OWN type count (flags by
+    truthiness, sequence/window only when segmented); whatever else is still set on the
+    object — fields of another PDU type left over from an earlier use, copied by
+    APCI.update() from a request, or never applicable — must not reach the wire.
+    None if the type is unknown."""
+    t = h["t"]
+    if t not in OWN:
+        return None
+    p = H(t)
+    for k in OWN[t]:
+        v = h[k]
+        p[k] = bool(v) if (k in FLAGS and (v is None or isinstance(v, bool))) else v
+    if t in (0, 3) and p["seg"] is True:
+        p["seq"], p["win"] = h["seq"], h["win"]
+    return p
+
+
+def stale_keys(h):
+    p = proj(h)
+    return [k for k in KEYS if h[k] is not None and (p is None or p[k] is None)]
+
+
 def oracle(ctx, case, a):
     op = case["op"]
     if a.get("r") == "err" and str(a.get("k", "")).startswith("python:") and not case.get("loose"):
         ctx.fail("unexpected-exception", case, "raised %s" % a["k"], op=op)
         return
-    if op in ("enc", "aenc"):
+    if op in ("enc", "aenc", "reuse"):
         h = case["h"]
+        stale = []
         if not wf(h):
-            return
+            # not a header of the property's domain as it stands; if its OWN fields form one,
+            # the octets must be those of the own fields alone (stale / foreign fields ignored)
+            stale = stale_keys(h)
+            h = proj(h)
+            if h is None or not wf(h):
+                return
         data = bytes.fromhex(case.get("data", ""))
         if a["r"] != "ok":
-            ctx.fail("encode-refused", case, "well-formed header refused: %s" % a["k"], op=op, pdu_type=h["t"])
+            ctx.fail("encode-refused", case, "well-formed header refused: %s" % a["k"], op=op, pdu_type=h["t"],
+                     stale=stale)
             return
         exp = expected_layout(h) + data
         if a["hex"] != exp.hex():
-            ctx.fail("layout", case, "octets %s differ from clause 20.1 layout %s" % (a["hex"], exp.hex()),
-                     op=op, pdu_type=h["t"])
+            got0 = int(a["hex"][:2], 16) if a["hex"] else -1
+            extra = got0 & 0x0F & ~FLAGMASK[h["t"]] if got0 >= 0 and (got0 >> 4) == h["t"] else 0
+            why = ("; first octet sets bit(s) 0x%02x that clause 20.1 requires to be zero for this PDU type "
+                   "(fields %s of another type are still set on the object)" % (extra, stale)) if extra else ""
+            ctx.fail("layout", case, "octets %s differ from clause 20.1 layout %s%s" % (a["hex"], exp.hex(), why),
+                     op=op, pdu_type=h["t"], stale=stale, reserved_bits=extra)
+        if stale or op == "reuse":
+            # canonical form: decoding the produced octets and encoding the result gives the same
+            # octets, and the peer sees exactly the own fields
+            back = impl({"op": "adec", "hex": a["hex"]}) if op != "enc" else impl({"op": "dec", "hex": a["hex"]})
+            if back.get("r") != "ok" or back["h"] != h:
+                ctx.fail("roundtrip", case, "the peer decodes %r, sent were %r" % (back.get("h", back), h),
+                         op=op, pdu_type=h["t"], stale=stale)
+            else:
+                again = impl({"op": "enc", "h": back["h"]})
+                hdr_hex = a["hex"][:2 * len(expected_layout(h))]
+                if again.get("r") != "ok" or again["hex"] != hdr_hex:
+                    ctx.fail("canonical", case, "encode(decode(%s)) = %r" % (hdr_hex, again), op=op,
+                             pdu_type=h["t"], stale=stale)
+            return
         # decode what the implementation itself produced (not the expected octets)
         if op == "enc":
             back = impl({"op": "dec", "hex": a["hex"] + case.get("tail", "")})
@@ -330,6 +456,9 @@ def oracle(ctx, case, a):
             return
         h = a["h"]
         rest = a["rest"] if op == "dec" else a["data"]
+        ref = ref_decode(raw)
+        if ref is None or h != ref[0]:
+            ctx.fail("decoded-header", case, "decoded %r, clause 20.1 reads %r" % (h, ref and ref[0]), op=op)
         if raw[n:].hex() != rest:
             ctx.fail("payload", case, "payload is %s, input after the header is %s" % (rest, raw[n:].hex()), op=op)
         if not wf(h):
@@ -569,6 +698,238 @@ def gen_loose(rng):
     return cases
 
 
+STALE_BASES = {
+    0: [dict(seg=False, mor=False, sa=False, msegs=0, mresp=5, inv=1, svc=12),
+        dict(seg=True, mor=True, sa=True, msegs=7, mresp=15, inv=255, svc=14, seq=128, win=127)],
+    1: [dict(svc=8)], 2: [dict(inv=1, svc=15)],
+    3: [dict(seg=False, mor=False, inv=42, svc=12), dict(seg=True, mor=False, inv=42, svc=12, seq=3, win=4),
+        dict(seg=False, mor=True, inv=0, svc=255)],
+    4: [dict(nak=False, srv=False, inv=42, seq=3, win=4), dict(nak=True, srv=False, inv=1, seq=255, win=0),
+        dict(nak=False, srv=True, inv=1, seq=0, win=1)],
+    5: [dict(inv=1, svc=12)], 6: [dict(inv=1, rsn=9)],
+    7: [dict(srv=False, inv=42, rsn=4), dict(srv=True, inv=1, rsn=65)]}
+
+
+def gen_stale(rng):
+    """headers carrying, besides the fields of their own type, every combination of flags
+    that belong to OTHER types (and optionally the other types' numeric fields): what an
+    object looks like after it was used for another PDU type or filled by APCI.update()"""
+    cases = []
+    for t, bases in STALE_BASES.items():
+        for b in bases:
+            own = set(OWN[t]) | ({"seq", "win"} if b.get("seg") else set())
+            fflags = [k for k in FLAGS if k not in own]
+            fnums = [k for k in KEYS if k not in FLAGS and k not in own]
+            for combo in itertools.product([None, False, True], repeat=len(fflags)):
+                for nums in (0, 1):
+                    if not nums and all(c is None for c in combo):
+                        continue
+                    h = H(t, **b)
+                    for k, v in zip(fflags, combo):
+                        h[k] = v
+                    if nums:
+                        for k in fnums:
+                            h[k] = rng.choice([0, 1, 5, 127, 255])
+                    cases.append({"op": "enc", "h": h, "loose": 1})
+                    cases.append({"op": "aenc", "h": h, "data": rng.choice(PAYLOADS), "loose": 1})
+    return cases
+
+
+REUSE_FIRST = ["0e7501800c0c0c02", "0275010c0c", "00050c0f", "1008", "20010f", "3c2a03040c0000", "342a0c3e3f",
+               "302a0c", "43010203", "42010203", "41010203", "40010203", "50010c0e", "600109", "71012a", "700104"]
+
+
+def gen_reuse(rng):
+    cases = []
+    for first in REUSE_FIRST:
+        ref = ref_decode(bytes.fromhex(first))[0]
+        for t, bases in STALE_BASES.items():
+            for b in bases:
+                for via in ("same", "update"):
+                    hb = H(t, **b)
+                    setk = list(OWN[t]) + (["seq", "win"] if hb.get("seg") else [])
+                    merged = dict(ref)
+                    merged["t"] = t
+                    for k in setk:
+                        merged[k] = hb[k]
+                    data = rng.choice(PAYLOADS)
+                    cases.append({"op": "reuse", "first": first, "via": via, "set": setk, "h": merged,
+                                  "data": data, "loose": 1,
+                                  "model": {"op": "aenc", "h": merged, "data": data}})
+    return cases
+
+
+# ---------------------------------------------------------------- history (one process, objects with a past)
+
+HIST_FRAMES = [  # header-only and empty-payload frames first: they are what a shared buffer would hit
+    "20010f", "40010004", "43ff807f", "600109", "6000ff", "71012a", "700104", "1008", "30010c", "50010c",
+    "00050c0f", "0c0501000f0f", "0c050100040f", "3c2a03040c", "382a00010c",
+    # with payloads
+    "080501010 40f0c0080000119 55".replace(" ", ""), "00050c0c0c02", "10080c0c02", "30010c3e4400003f", "3c2a03040c0000",
+    "50010c910091", "71012aaa", "20010faa", "40010004bb", "600109cc",
+    # refused
+    "", "00", "20", "4001", "80", "f0ff", "0c0501"]
+
+
+def gen_history(rng, nseq, maxlen):
+    seqs = []
+    for _ in range(nseq):
+        steps, objs = [], []        # objs: step index of every successful decode
+        for _k in range(rng.randrange(4, maxlen + 1)):
+            r = rng.random()
+            if r < 0.5 or not objs:
+                hx = rng.choice(HIST_FRAMES) if rng.random() < 0.85 else \
+                    bytes([rng.randrange(8) << 4 | rng.getrandbits(4)] + [rng.getrandbits(8) for _i in range(rng.randrange(0, 9))]).hex()
+                if ref_decode(bytes.fromhex(hx)) is not None:
+                    objs.append(len(steps))
+                steps.append(["d", hx])
+            elif r < 0.8:
+                i = rng.choice(objs)
+                which = rng.choice(["typed", "typed", "apdu"])
+                how = rng.choice(["put_data", "put_data", "put", "iadd", "extend", "put_short", "append_segment"])
+                if how == "append_segment":
+                    steps.append(["m", i, "typed", how, rng.choice(objs)])
+                elif how in ("put", "put_short"):
+                    steps.append(["m", i, which, how, rng.choice([0, 1, 0x55, 255])])
+                else:
+                    steps.append(["m", i, which, how, rng.choice(["aa", "0c0080000119", "00", "ffff"])])
+            else:
+                steps.append(["e", rng.choice(objs), rng.choice(["typed", "typed", "apdu"])])
+        seqs.append(steps)
+    return seqs
+
+
+def exec_history(ctx, steps):
+    """run one sequence on the implementation inside THIS process.  Returns the flattened
+    (case, impl reply, model request) triples of its decode / encode steps.  Oracle: every
+    decode / encode result depends only on ITS octets / ITS object (reference decoder and
+    layout); the pduData of two decoded objects are never the same object; mutating one
+    never changes another."""
+    from bacpypes import apdu as A
+    from bacpypes.pdu import PDU
+    objs = {}       # (step, which) -> object
+    want = {}       # (step, which) -> bytearray the object's pduData must equal
+    hdr = {}        # step -> reference header
+    out = []
+    failed = [False]
+
+    def fail(kind, k, what):
+        if not failed[0]:
+            ctx.fail(kind, {"op": "history", "steps": steps[:k + 1], "at": k}, what, op="history")
+        failed[0] = True
+
+    for k, st in enumerate(steps):
+        case = {"op": "history", "steps": steps[:k + 1], "at": k}
+        if st[0] == "d":
+            raw = bytes.fromhex(st[1])
+            ref = ref_decode(raw)
+            try:
+                apdu = A.APDU()
+                apdu.decode(PDU(raw))
+                typed = A.apdu_types[apdu.apduType]()
+                typed.decode(apdu)
+                rep = {"r": "ok", "h": get_fields(typed), "data": bytes(typed.pduData).hex()}
+                objs[(k, "apdu")], objs[(k, "typed")] = apdu, typed
+            except Exception as e:
+                rep = {"r": "err", "k": core.exc_kind(e)}
+            out.append((case, rep, {"op": "adec", "hex": st[1]}))
+            if ref is None:
+                if rep["r"] == "ok":
+                    fail("decode-accepted", k, "step %d: %s accepted" % (k, st[1]))
+                elif rep["k"] != "decoding":
+                    fail("wrong-error", k, "step %d: %s raised %s" % (k, st[1], rep["k"]))
+            elif rep["r"] != "ok":
+                fail("decode-refused", k, "step %d: %s refused (%s) after this history" % (k, st[1], rep["k"]))
+            else:
+                hdr[k] = ref[0]
+                want[(k, "typed")] = bytearray(ref[1])
+                want[(k, "apdu")] = bytearray()
+                if rep["h"] != ref[0]:
+                    fail("roundtrip", k, "step %d: %s decodes to %r after this history, alone it is %r" % (
+                        k, st[1], rep["h"], ref[0]))
+                elif rep["data"] != ref[1].hex():
+                    fail("payload", k, "step %d: %s decodes with payload %s after this history, its own payload is %s"
+                         % (k, st[1], rep["data"], ref[1].hex()))
+        elif st[0] == "m":
+            _m, i, which, how, arg = st
+            o = objs.get((i, which))
+            if o is None:
+                continue
+            if how == "append_segment":
+                src = objs.get((arg, "typed"))
+                if src is None or src is o:     # (bytearray += itself is a BufferError in Python)
+                    continue
+                add = bytes(want[(arg, "typed")])
+                o.put_data(src.pduData)            # what SSM.append_segment does
+            elif how == "put_data":
+                add = bytes.fromhex(arg); o.put_data(add)
+            elif how == "put":
+                add = bytes([arg]); o.put(arg)
+            elif how == "put_short":
+                add = bytes([0, arg]); o.put_short(arg)
+            elif how == "iadd":
+                add = bytes.fromhex(arg); o.pduData += add
+            else:
+                add = bytes.fromhex(arg); o.pduData.extend(add)
+            want[(i, which)] += add
+        else:
+            _e, i, which = st
+            o = objs.get((i, which))
+            if o is None:
+                continue
+            try:
+                pdu = PDU()
+                if which == "typed":
+                    x = A.APDU(); o.encode(x); x.encode(pdu)
+                else:
+                    o.encode(pdu)
+                rep = {"r": "ok", "hex": bytes(pdu.pduData).hex()}
+            except Exception as e:
+                rep = {"r": "err", "k": enc_exc_kind(e)}
+            data = bytes(want[(i, which)])
+            out.append((case, rep, {"op": "aenc", "h": hdr[i], "data": data.hex()}))
+            exp = (expected_layout(hdr[i]) + data).hex()
+            if rep.get("hex") != exp:
+                fail("layout", k, "step %d: object of step %d re-encodes as %r, its header + its payload is %s" % (
+                    k, i, rep.get("hex", rep), exp))
+        # after every step: no two decoded objects share a buffer, nobody's payload moved
+        seen = {}
+        for key, o in objs.items():
+            other = seen.setdefault(id(o.pduData), key)
+            if other != key:
+                fail("alias", k, "after step %d the pduData of object %r and of object %r are the SAME bytearray"
+                     % (k, other, key))
+            if bytes(o.pduData) != bytes(want[key]):
+                fail("payload", k, "after step %d the pduData of object %r is %s, it must be %s (changed through "
+                     "another object)" % (k, key, bytes(o.pduData).hex(), bytes(want[key]).hex()))
+    return out, failed[0]
+
+
+def run_history(ctx, stream, seqs, stop=True):
+    flat = []
+    for steps in seqs:
+        out, bad = exec_history(ctx, steps)
+        flat += out
+        if bad and stop:
+            break       # the process may carry the damage on: later sequences would not be self-contained
+    cases = [c for c, _a, _w in flat]
+    a = [r for _c, r, _w in flat]
+    if ctx.model_ok and flat:
+        b = core.Driver("drv_c07").ask([w for _c, _a, w in flat])
+        ctx.compare_stream(stream, cases, a, b, sig=sig)
+    else:
+        for c in cases:
+            ctx.count(stream)
+    if seqs:
+        ctx.sample({"stream": stream, "case": {"op": "history", "steps": seqs[0]}})
+
+
+def shard_history(ctx, spec):
+    idx, nseq, maxlen = spec
+    rng = ctx.sub_rng("c07-history-%d" % idx)
+    run_history(ctx, "history", gen_history(rng, nseq, maxlen))
+
+
 def gen_oct_exhaustive(length, lo, hi):
     for v in range(lo, hi):
         hx = v.to_bytes(length, "big").hex() if length else ""
@@ -634,12 +995,23 @@ def gen_tables(ctx, hi=2000):
 
 def sig(case, m):
     op = case["op"]
+    if op == "history":
+        st = case["steps"][case["at"]]
+        past = sum(1 for x in case["steps"][:case["at"]] if x[0] == "m")
+        if st[0] == "d":
+            res = (m["h"]["t"], m["h"]["seg"], m["data"] == "") if m.get("r") == "ok" else m.get("k")
+        else:
+            res = (st[2], m.get("r"))
+        return ("history", st[0], res, min(past, 3))
+    if op == "reuse":
+        return (op, case["first"][:2], case["via"], case["h"]["t"], bool(case["h"]["seg"]),
+                "ok" if m.get("r") == "ok" else m.get("k"))
     if op in ("enc", "aenc"):
         h = case["h"]
         res = "ok" if m.get("r") == "ok" else m.get("k")
         if case.get("loose"):
             bad = tuple(k for k in KEYS if h[k] is None)
-            return (op, "loose", min(h["t"], 9), res, bad)
+            return (op, "loose", min(h["t"], 9), res, bad, tuple(stale_keys(h)))
         return (op, h["t"], h["seg"], h["mor"], h["sa"], h["srv"], h["nak"], h["msegs"], h["mresp"], res)
     if op in ("dec", "adec"):
         raw = case["hex"]
@@ -661,7 +1033,8 @@ def run_cases(ctx, stream, cases, oracle_on=True):
         for c, r in zip(cases, a):
             oracle(ctx, c, r)
     if ctx.model_ok:
-        wire = [{k: v for k, v in c.items() if k not in ("tail", "loose", "canon")} for c in cases]
+        wire = [c["model"] if "model" in c else
+                {k: v for k, v in c.items() if k not in ("tail", "loose", "canon")} for c in cases]
         b = core.Driver("drv_c07").ask(wire)
         ctx.compare_stream(stream, cases, a, b, sig=sig)
     else:
@@ -705,15 +1078,22 @@ def run(ctx):
     # 0. corpus first
     corpus = load_corpus()
     if corpus:
-        run_cases(ctx, "corpus", corpus)
+        run_cases(ctx, "corpus", [c for c in corpus if c["op"] != "history"])
+        run_history(ctx, "corpus", [c["steps"] for c in corpus if c["op"] == "history"], stop=False)
     oracle_registry(ctx)
     oracle_context_ctor(ctx)
+    # 0b. objects with a past, inside worker processes (each worker runs several sequences
+    #     one after the other in the same interpreter)
+    nh, per, ml = (8, 40, 24) if ctx.quick else (16, 1500, 40)
+    core.run_shards(ctx, "harness.c07", "shard_history", [(i, per, ml) for i in range(nh)])
     # 1. tables
     tc = gen_tables(ctx)
     ta = run_cases(ctx, "tables", tc)
     oracle_tables_global(ctx, tc, ta)
     # 2. loose headers and truncations / substitutions
     run_cases(ctx, "hdr-loose", gen_loose(rng))
+    run_cases(ctx, "hdr-stale", gen_stale(rng))
+    run_cases(ctx, "hdr-reuse", gen_reuse(rng))
     run_cases(ctx, "oct-trunc", gen_oct_trunc(ctx, rng))
     # 3. full cross product per type, exhaustive octet strings, random octets (sharded)
     specs = [(0, i, 16) for i in range(16)] + [(t, 0, 1) for t in range(1, 8)]
@@ -726,6 +1106,9 @@ def run(ctx):
     nrand = 16 if not ctx.quick else 8
     per = 2500 if ctx.quick else 25000
     core.run_shards(ctx, "harness.c07", "shard_random", [(i, per) for i in range(nrand)])
+    # 4. the same history stream once more in THIS process, after everything else it has done
+    #     (last, so that damage done to process-wide state cannot blur the other streams)
+    run_history(ctx, "history", gen_history(ctx.sub_rng("c07-history-main"), 40 if ctx.quick else 400, 24))
     ctx.exhaustive = False
     ctx.extra["exhaustive_octet_string_length"] = 2 if ctx.quick else 3
     ctx.extra["header_cross_product"] = (
@@ -743,6 +1126,10 @@ def search(ctx):
     n0 = len(ctx.failures)
     oracle_registry(ctx)
     oracle_context_ctor(ctx)
+    for c in gen_stale(rng) + gen_reuse(rng) + gen_loose(rng):
+        oracle(ctx, c, impl(c))
+    if len(ctx.failures) > n0:
+        return
     cases = []
     for n in range(0, 70001):
         cases.append({"op": "len-enc", "n": n})
@@ -787,6 +1174,9 @@ def replay(ctx, payload):
         return
     if case.get("op") == "ctx-ctor":
         oracle_context_ctor(ctx)
+        return
+    if case.get("op") == "history":
+        run_history(ctx, "replay", [case["steps"]])
         return
     a = run_cases(ctx, "replay", [case])
     if case["op"] in ("len-enc", "segs-enc"):
